@@ -298,10 +298,11 @@ pub fn make_header(cfg: &PicCfg, ptype: u8, rng: &mut Rng) -> Hdr {
                 rru: false,
                 // the rounding-type bit of predicted pictures is parsed; the property's interpolation rule does not depend on it
                 rtype: ptype != 0 && rng.chance(1, 3),
-                par: *rng.pick(&[1u8, 2, 3, 4, 5]),
+                // the extended form (1111) is followed by two more bytes after the height
+                par: *rng.pick(&[1u8, 2, 3, 4, 5, 15]),
                 pwi: (cfg.w / 4 - 1) as u16,
                 phi: (cfg.h / 4) as u16,
-                epar: (1, 1),
+                epar: (1 + cfg.tr % 255, 1 + cfg.quant),
                 cpcfc: 0,
                 etr: 0,
                 uui_unlimited: false,
